@@ -482,14 +482,15 @@ type GuardSpec interface {
 // (Want is ignored for error results: the pass edge is always err == nil), or - for pointer/ other
 // results with NonNil set - must be non-nil.
 type CallGuard struct {
-	Name    string
-	Callees []string                  // fname()s or "invoke:..." names
-	Want    bool                      // required value of the bool result
-	ArgOK   func(call *ssa.Call) bool // optional argument constraint
-	Depth   int                       // helper-summary depth (0 = default 3)
-	Result  func(call *ssa.Call) int  // optional: which result index carries the verdict
-	ErrOnly bool                      // consider only the error result
-	seen    map[*ssa.Function]map[bool]bool
+	Name     string
+	Callees  []string                  // fname()s or "invoke:..." names
+	Want     bool                      // required value of the bool result
+	ArgOK    func(call *ssa.Call) bool // optional argument constraint
+	Depth    int                       // helper-summary depth (0 = default 3)
+	Result   func(call *ssa.Call) int  // optional: which result index carries the verdict
+	ErrOnly  bool                      // consider only the error result
+	seen     map[*ssa.Function]map[bool]bool
+	flagSeen map[string]bool
 }
 
 func (g *CallGuard) String() string { return g.Name }
@@ -552,9 +553,84 @@ func (g *CallGuard) edges(p *Program, fn *ssa.Function, depth int) []Edge {
 		})
 		if pol != 0 {
 			res = append(res, edgeFor(b, pol))
+			continue
+		}
+		// flag summary: the condition is a boolean result of a repository helper (a "stop"/"done" flag rather than a
+		// success verdict); the edge on which the flag has value val is a pass edge when every return of the helper that
+		// may yield val there lies behind the guard inside the helper.
+		if depth < maxd {
+			var fc *ssa.Call
+			fidx := 0
+			fpol := boolCond(iff.Cond, func(v ssa.Value) bool {
+				c, ok := isCallResult(v, -1, func(c *ssa.Call) bool {
+					sc := c.Call.StaticCallee()
+					return sc != nil && inRepo(sc) && sc.Blocks != nil && !g.matches(c)
+				})
+				if !ok {
+					return false
+				}
+				_, idx := tupleSource(v)
+				if idx < 0 {
+					idx = 0
+				}
+				if !g.isVerdictResult(c, idx, isBoolType) && !(idx == 0 && c.Call.Signature().Results().Len() == 1) {
+					return false
+				}
+				fc, fidx = c, idx
+				return true
+			})
+			if fpol != 0 && fc != nil {
+				for _, val := range []bool{true, false} {
+					if g.flagEstablishes(p, fc.Call.StaticCallee(), fidx, val, depth+1) {
+						if val {
+							res = append(res, edgeFor(b, fpol))
+						} else {
+							res = append(res, edgeFor(b, -fpol))
+						}
+					}
+				}
+			}
 		}
 	}
 	return res
+}
+
+// flagEstablishes: every return of h whose idx-th (boolean) result may be val is unreachable once the pass edges of g
+// inside h are removed, and at least one such return exists.
+func (g *CallGuard) flagEstablishes(p *Program, h *ssa.Function, idx int, val bool, depth int) bool {
+	if g.flagSeen == nil {
+		g.flagSeen = map[string]bool{}
+	}
+	key := fname(h) + "#" + string(rune('0'+idx))
+	if val {
+		key += "T"
+	}
+	if r, ok := g.flagSeen[key]; ok {
+		return r
+	}
+	g.flagSeen[key] = false // cycle guard
+	edges := g.edges(p, h, depth)
+	if len(edges) == 0 {
+		return false
+	}
+	live := reachWithout(h, edges)
+	n := 0
+	ok := true
+	for _, ret := range returnsOf(h) {
+		if idx >= len(ret.Results) || !isBoolType(ret.Results[idx].Type()) {
+			return false
+		}
+		if k, isC := boolConst(ret.Results[idx]); isC && k != val {
+			continue
+		}
+		n++
+		if live[ret.Block()] {
+			ok = false
+		}
+	}
+	ok = ok && n > 0
+	g.flagSeen[key] = ok
+	return ok
 }
 
 func mustStrip(v ssa.Value) ssa.Value {
